@@ -199,6 +199,48 @@ theorem blockedPush_fixed :
     (runConn (Conn.init (client {}) false) [ppStream, encStream]).map (normOf 0) := by
   decide +kernel
 
+/-! ## the stream table -/
+
+theorem lookupS_eraseS_ne (i sid : Nat) (l : List (Nat × H3.Stream)) (h : i ≠ sid) :
+    lookupS i (eraseS sid l) = lookupS i l := by
+  induction l with
+  | nil => rfl
+  | cons x r ih =>
+    obtain ⟨j, y⟩ := x
+    simp only [eraseS, lookupS]
+    by_cases hj : j = sid
+    · subst hj
+      have : ¬ j = i := fun e => h e.symm
+      simp [this]
+    · simp only [hj, ↓reduceIte, lookupS, ih]
+
+/-- "…including when header compression makes a request wait for the encoder
+    stream": the clean-up at the end of every `_get_or_create_stream` block
+    (`if stream.is_ended(): self._stream.pop(stream_id)`) never removes a stream
+    that is blocked on the QPACK encoder stream — whichever stream the block was
+    entered for, and even when both directions of the blocked stream have ended —
+    so the unblocked-stream loop finds it when the encoder stream arrives. -/
+theorem blocked_stream_never_removed (c : Conn σ) (sid i : Nat) (s : H3.Stream)
+    (h : lookupS i c.streams = some s) (hb : s.blocked = true) :
+    lookupS i (popIfEnded c sid).streams = some s := by
+  unfold popIfEnded
+  split
+  · rename_i s1 hs1
+    split
+    · rename_i he
+      by_cases hi : i = sid
+      · subst hi
+        rw [h] at hs1
+        cases hs1
+        simp [Stream.isEnded, hb] at he
+      · simpa [lookupS_eraseS_ne i sid _ hi] using h
+    · exact h
+  · exact h
+
+/-- the rule itself: `is_ended()` is false for a blocked stream -/
+theorem blocked_not_ended (s : H3.Stream) (hb : s.blocked = true) : s.isEnded = false := by
+  simp [Stream.isEnded, hb]
+
 /-! ## frame codec -/
 
 /-- "Headers, bodies and trailers submitted through the sending API … arrive
